@@ -90,6 +90,9 @@ class Zygote:
         e.pop("SYMPY_USE_CACHE", None)
         for k, v in (env.get("environ") or {}).items():
             e[k] = str(v)
+        # experiment knob (never set by the registered commands): extra environment for every zygote
+        for k, v in json.loads(os.environ.get("VERIF_EXTRA_ENVIRON") or "{}").items():
+            e[k] = str(v)
         self.proc = subprocess.Popen(
             _no_aslr() + [PY, os.path.join(VERIF, "sim", "zygote.py"), prop],
             stdin=subprocess.PIPE,
